@@ -41,6 +41,9 @@ def run(tier, rng, C):
         rng.shuffle(es)
         cid = C.case_id('s', i)
         layers = [('m', es)]
+        if i % 2:
+            # ... nor over the layers of one multiply-defined parameter
+            layers += [M(('lay', S('${v%d}' % (hops - 1)))) for _ in range(sib)]
         cases.append({'id': cid, 'line': V.stack_line(cid, 'value', layers),
                       'show': '%d sibling references, each through a chain of %d aliases: %s' % (sib, hops, V.stack_show(layers)[:300]),
                       'nontrivial': True, 'cyclic': False, 'nrefs': 0, 'chain': hops})
